@@ -141,9 +141,11 @@ Definition add_err (e : err) (s : S) : S := set_err (s_err s ++ [e]) s.
 Record opts := mk_opts {
   x_setall : bool;       (* hooks call SetColumn(name, v, true): "from callbacks", every record of a slice is set *)
   x_delassoc : Z;        (* Delete with Select(<has-many>): 0 none, 1 Kids, 2 Pets *)
-  x_preload : bool       (* Find / First with Preload("Kids").Preload("Pets") *)
+  x_preload : bool;      (* Find / First with Preload("Kids").Preload("Pets") *)
+  x_setafter : bool      (* the after-hooks of writes (AfterCreate/Update/Save/Delete) go through the statement too:
+                            Statement.Changed + Statement.SetColumn at the marked invocations *)
 }.
-Definition no_opts := mk_opts false 0 false.
+Definition no_opts := mk_opts false 0 false false.
 
 (* ------------------------------------------------------------------ the context of one pipeline *)
 Record cx := mk_cx {
@@ -197,6 +199,8 @@ Definition set_column (c : cx) (i : nat) (v : Z) (s : S) : S :=
 
 Definition is_before_save_hook (h : hook) : bool :=
   match h with BeforeSave | BeforeCreate | BeforeUpdate => true | _ => false end.
+Definition is_after_write_hook (h : hook) : bool :=
+  match h with AfterCreate | AfterUpdate | AfterSave | AfterDelete => true | _ => false end.
 
 (* one invocation of a hook method of the instrumented type: the harness' hook logs itself (with the
    pool its tx handle carries: callMethod's db.Session(&Session{NewDB:true}) shares db.Statement),
@@ -204,7 +208,8 @@ Definition is_before_save_hook (h : hook) : bool :=
 Definition invoke (c : cx) (h : hook) (tag : Z) (i : nat) (s : S) : S :=
   let k0 := s_k s in
   let s1 := set_k (k0 + 1) (emit (THook h (ty_id (c_ty c)) tag (s_pool s)) s) in
-  let s2 := if is_before_save_hook h && memz k0 (c_sets c) then set_column c i (1000 + k0) s1 else s1 in
+  let s2 := if (is_before_save_hook h || (x_setafter (c_x c) && is_after_write_hook h)) && memz k0 (c_sets c)
+            then set_column c i (1000 + k0) s1 else s1 in
   if memz k0 (c_fails c) then add_err (EInj k0) s2 else s2.
 
 (* the closure fc(value, tx) of a hook callback: tries the hooks of the phase in order; an error of
